@@ -272,4 +272,460 @@ theorem swap_guard {s s' : State} {frm recv : Addr} {hash : Bytes} {amt : Int} (
   obtain ⟨_, h1, _, h2, _, h3, _⟩ := h
   exact ⟨h1, by simpa using h2, (Tbl.has_eq_false_iff _ _).mp (by simpa using h3)⟩
 
+/-! ### frames: which records a step can touch -/
+
+/-- The primary record tables of the marketplace. -/
+structure Recs where
+  provActive : Tbl Addr Provider
+  provInactive : Tbl Addr Provider
+  nodeActive : Tbl Addr Node
+  nodeInactive : Tbl Addr Node
+  planActive : Tbl Nat Plan
+  planInactive : Tbl Nat Plan
+  nodeForPlan : Tbl (Nat × Addr) Unit
+  subs : Tbl Nat Sub
+  allocs : Tbl (Nat × Addr) Alloc
+  payouts : Tbl Nat Payout
+  sessions : Tbl Nat Session
+
+def recs (s : State) : Recs :=
+  ⟨s.provActive, s.provInactive, s.nodeActive, s.nodeInactive, s.planActive, s.planInactive, s.nodeForPlan,
+   s.subs, s.allocs, s.payouts, s.sessions⟩
+
+/-- A set of records, table by table: provider records (by address), node records, plans (by id),
+plan–node links, subscriptions, allocations (subscription, holder), payouts and sessions. -/
+structure Footprint where
+  prov : Addr → Prop
+  node : Addr → Prop
+  plan : Nat → Prop
+  link : Nat × Addr → Prop
+  sub : Nat → Prop
+  alloc : Nat × Addr → Prop
+  payout : Nat → Prop
+  sess : Nat → Prop
+
+def Footprint.empty : Footprint :=
+  ⟨fun _ => False, fun _ => False, fun _ => False, fun _ => False, fun _ => False, fun _ => False, fun _ => False, fun _ => False⟩
+
+/-- Every record outside the footprint `F` is the same in `s'` as in `s` (present with the same
+content, or absent in both), in every primary table. -/
+structure ChangesWithin (F : Footprint) (s s' : State) : Prop where
+  provA : ∀ a, ¬ F.prov a → s'.provActive.get a = s.provActive.get a
+  provI : ∀ a, ¬ F.prov a → s'.provInactive.get a = s.provInactive.get a
+  nodeA : ∀ a, ¬ F.node a → s'.nodeActive.get a = s.nodeActive.get a
+  nodeI : ∀ a, ¬ F.node a → s'.nodeInactive.get a = s.nodeInactive.get a
+  planA : ∀ i, ¬ F.plan i → s'.planActive.get i = s.planActive.get i
+  planI : ∀ i, ¬ F.plan i → s'.planInactive.get i = s.planInactive.get i
+  link : ∀ k, ¬ F.link k → s'.nodeForPlan.get k = s.nodeForPlan.get k
+  sub : ∀ i, ¬ F.sub i → s'.subs.get i = s.subs.get i
+  alloc : ∀ k, ¬ F.alloc k → s'.allocs.get k = s.allocs.get k
+  payout : ∀ i, ¬ F.payout i → s'.payouts.get i = s.payouts.get i
+  sess : ∀ i, ¬ F.sess i → s'.sessions.get i = s.sessions.get i
+
+variable {F : Footprint}
+
+theorem cw_of_recs {s s' : State} (h : recs s' = recs s) : ChangesWithin F s s' := by
+  have h1 : s'.provActive = s.provActive := congrArg Recs.provActive h
+  have h2 : s'.provInactive = s.provInactive := congrArg Recs.provInactive h
+  have h3 : s'.nodeActive = s.nodeActive := congrArg Recs.nodeActive h
+  have h4 : s'.nodeInactive = s.nodeInactive := congrArg Recs.nodeInactive h
+  have h5 : s'.planActive = s.planActive := congrArg Recs.planActive h
+  have h6 : s'.planInactive = s.planInactive := congrArg Recs.planInactive h
+  have h7 : s'.nodeForPlan = s.nodeForPlan := congrArg Recs.nodeForPlan h
+  have h8 : s'.subs = s.subs := congrArg Recs.subs h
+  have h9 : s'.allocs = s.allocs := congrArg Recs.allocs h
+  have h10 : s'.payouts = s.payouts := congrArg Recs.payouts h
+  have h11 : s'.sessions = s.sessions := congrArg Recs.sessions h
+  exact ⟨fun _ _ => by rw [h1], fun _ _ => by rw [h2], fun _ _ => by rw [h3], fun _ _ => by rw [h4],
+    fun _ _ => by rw [h5], fun _ _ => by rw [h6], fun _ _ => by rw [h7], fun _ _ => by rw [h8],
+    fun _ _ => by rw [h9], fun _ _ => by rw [h10], fun _ _ => by rw [h11]⟩
+
+theorem cw_refl (s : State) : ChangesWithin F s s := cw_of_recs rfl
+
+theorem ChangesWithin.trans {a b c : State} (h1 : ChangesWithin F a b) (h2 : ChangesWithin F b c) : ChangesWithin F a c :=
+  ⟨fun k hk => (h2.provA k hk).trans (h1.provA k hk), fun k hk => (h2.provI k hk).trans (h1.provI k hk),
+   fun k hk => (h2.nodeA k hk).trans (h1.nodeA k hk), fun k hk => (h2.nodeI k hk).trans (h1.nodeI k hk),
+   fun k hk => (h2.planA k hk).trans (h1.planA k hk), fun k hk => (h2.planI k hk).trans (h1.planI k hk),
+   fun k hk => (h2.link k hk).trans (h1.link k hk), fun k hk => (h2.sub k hk).trans (h1.sub k hk),
+   fun k hk => (h2.alloc k hk).trans (h1.alloc k hk), fun k hk => (h2.payout k hk).trans (h1.payout k hk),
+   fun k hk => (h2.sess k hk).trans (h1.sess k hk)⟩
+
+theorem recs_of_moneyFrame {s s' : State} (h : MoneyFrame s s') : recs s' = recs s := by
+  unfold MoneyFrame at h; rw [h]; rfl
+
+/-- A table after `set k v` / `erase k` agrees with the old one at every other key. -/
+theorem get_set_other {κ α : Type} [DecidableEq κ] (t : Tbl κ α) (k : κ) (v : α) (P : κ → Prop) (hk : P k) :
+    ∀ k', ¬ P k' → (t.set k v).get k' = t.get k' := by
+  intro k' hk'
+  exact Tbl.get_set_ne t v (by rintro rfl; exact hk' hk)
+
+theorem get_erase_other {κ α : Type} [DecidableEq κ] (t : Tbl κ α) (k : κ) (P : κ → Prop) (hk : P k) :
+    ∀ k', ¬ P k' → (t.erase k).get k' = t.get k' := by
+  intro k' hk'
+  exact Tbl.get_erase_ne t (by rintro rfl; exact hk' hk)
+
+/-! #### money primitives touch no record -/
+
+theorem recs_fundCommunityPool {s s' : State} {f : Addr} {c : Coin} (h : fundCommunityPool s f c = .ok s') : recs s' = recs s := by
+  unfold fundCommunityPool at h
+  split at h
+  · rw [pure_eq_ok] at h; rw [h]
+  · exact recs_of_moneyFrame (sendCoins_frame h)
+
+theorem recs_depositAdd {s s' : State} {f t : Addr} {c : Coin} (h : depositAdd s f t c = .ok s') : recs s' = recs s := by
+  unfold depositAdd at h
+  simp only [bind_eq_ok, pure_eq_ok, require_eq_ok] at h
+  obtain ⟨s1, hs1, _, _, rfl⟩ := h
+  have e : recs s1 = recs s := recs_of_moneyFrame (sendCoins_frame hs1)
+  rw [← e]; rfl
+
+theorem recs_addDeposit {s s' : State} {a : Addr} {c : Coin} (h : addDeposit s a c = .ok s') : recs s' = recs s := by
+  unfold addDeposit at h
+  split at h
+  · rw [pure_eq_ok] at h; rw [h]
+  · exact recs_depositAdd h
+
+theorem recs_sendCoin {s s' : State} {f t : Addr} {c : Coin} (h : sendCoin s f t c = .ok s') : recs s' = recs s := by
+  unfold sendCoin at h
+  split at h
+  · rw [pure_eq_ok] at h; rw [h]
+  · exact recs_of_moneyFrame (sendCoins_frame h)
+
+theorem recs_sendCoinFromAccountToModule {s s' : State} {f t : Addr} {c : Coin}
+    (h : sendCoinFromAccountToModule s f t c = .ok s') : recs s' = recs s := by
+  unfold sendCoinFromAccountToModule at h
+  split at h
+  · rw [pure_eq_ok] at h; rw [h]
+  · exact recs_of_moneyFrame (sendCoins_frame h)
+
+theorem recs_mintCoins {s s' : State} {m : Addr} {c : Coin} (h : mintCoins s m c = .ok s') : recs s' = recs s := by
+  unfold mintCoins at h
+  simp only [bind_eq_ok, pure_eq_ok] at h
+  obtain ⟨nb, _, ns, _, rfl⟩ := h
+  rfl
+
+theorem recs_sendModuleToAccount {s s' : State} {m t : Addr} {c : Coin} (h : sendModuleToAccount s m t c = .ok s') :
+    recs s' = recs s := by
+  unfold sendModuleToAccount at h
+  split at h
+  · simp [reject] at h
+  · exact recs_of_moneyFrame (sendCoins_frame h)
+
+/-! #### record writers -/
+
+theorem cw_setProvider {s s' : State} {p : Provider} (h : setProvider s p = .ok s') (hF : F.prov p.addr) :
+    ChangesWithin F s s' := by
+  unfold setProvider at h
+  split at h <;> simp only [pure_eq_ok, gopanic_ne_ok] at h
+  · subst h
+    exact { cw_refl s with provA := get_set_other _ _ _ F.prov hF }
+  · subst h
+    exact { cw_refl s with provI := get_set_other _ _ _ F.prov hF }
+
+theorem cw_setNode {s s' : State} {n : Node} (h : setNode s n = .ok s') (hF : F.node n.addr) :
+    ChangesWithin F s s' := by
+  unfold setNode at h
+  split at h <;> simp only [pure_eq_ok, gopanic_ne_ok] at h
+  · subst h
+    exact { cw_refl s with nodeA := get_set_other _ _ _ F.node hF }
+  · subst h
+    exact { cw_refl s with nodeI := get_set_other _ _ _ F.node hF }
+
+theorem cw_setPlan {s s' : State} {p : Plan} (h : setPlan s p = .ok s') (hF : F.plan p.id) :
+    ChangesWithin F s s' := by
+  unfold setPlan at h
+  split at h <;> simp only [pure_eq_ok, gopanic_ne_ok] at h
+  · subst h
+    exact { cw_refl s with planA := get_set_other _ _ _ F.plan hF }
+  · subst h
+    exact { cw_refl s with planI := get_set_other _ _ _ F.plan hF }
+
+/-! #### handlers -/
+
+theorem provUpdated_addr (p : Provider) (n i w d : Bytes) (st : Status) (t : Time) : (provUpdated p n i w d st t).addr = p.addr := by
+  unfold provUpdated
+  simp only []
+  split <;> split <;> rfl
+
+theorem nodeUpdated_addr (n : Node) (gb hr : Option Coins) (url : Bytes) : (nodeUpdated n gb hr url).addr = n.addr := by
+  unfold nodeUpdated
+  cases gb <;> cases hr <;> simp only [] <;> split <;> rfl
+
+theorem cw_provRegister {s s' : State} {frm : Addr} {n i w d : Bytes} (h : provRegister s frm n i w d = .ok s')
+    (hF : F.prov frm) : ChangesWithin F s s' := by
+  unfold provRegister at h
+  simp only [bind_eq_ok, pure_eq_ok, require_eq_ok] at h
+  obtain ⟨_, _, s1, h1, s2, h2, rfl⟩ := h
+  exact ((cw_of_recs (recs_fundCommunityPool h1)).trans (cw_setProvider h2 hF)).trans (cw_of_recs rfl)
+
+theorem cw_provUpdate {s s' : State} {frm : Addr} {n i w d : Bytes} {st : Status} (h : provUpdate s frm n i w d st = .ok s')
+    (hk : KeysOK s) (hF : F.prov frm) : ChangesWithin F s s' := by
+  unfold provUpdate at h
+  simp only [bind_eq_ok, pure_eq_ok, orReject_eq_ok] at h
+  obtain ⟨p, hp, s3, h3, rfl⟩ := h
+  have ha : F.prov (provUpdated p n i w d st s.time).addr := by rw [provUpdated_addr, hk.getProvider hp]; exact hF
+  refine (ChangesWithin.trans ?_ (cw_setProvider h3 ha)).trans (cw_of_recs rfl)
+  split <;> split <;>
+    first
+      | exact cw_of_recs rfl
+      | exact { cw_refl s with provA := get_erase_other _ _ F.prov hF }
+      | exact { cw_refl s with provI := get_erase_other _ _ F.prov hF }
+      | exact { cw_refl s with provA := get_erase_other _ _ F.prov hF, provI := get_erase_other _ _ F.prov hF }
+
+theorem cw_nodeRegister {s s' : State} {frm : Addr} {gb hr : Coins} {url : Bytes} (h : nodeRegister s frm gb hr url = .ok s')
+    (hF : F.node frm) : ChangesWithin F s s' := by
+  unfold nodeRegister at h
+  simp only [bind_eq_ok, pure_eq_ok, require_eq_ok] at h
+  obtain ⟨_, _, _, _, _, _, s1, h1, s2, h2, rfl⟩ := h
+  exact ((cw_of_recs (recs_fundCommunityPool h1)).trans (cw_setNode h2 hF)).trans (cw_of_recs rfl)
+
+theorem cw_nodeUpdate {s s' : State} {frm : Addr} {gb hr : Option Coins} {url : Bytes} (h : nodeUpdate s frm gb hr url = .ok s')
+    (hk : KeysOK s) (hF : F.node frm) : ChangesWithin F s s' := by
+  unfold nodeUpdate at h
+  simp only [bind_eq_ok, pure_eq_ok, require_eq_ok, orReject_eq_ok] at h
+  obtain ⟨_, _, _, _, n, hn, s1, h1, rfl⟩ := h
+  have ha : F.node (nodeUpdated n gb hr url).addr := by rw [nodeUpdated_addr, hk.getNode hn]; exact hF
+  exact (cw_setNode h1 ha).trans (cw_of_recs rfl)
+
+theorem cw_nodeStatus {s s' : State} {frm : Addr} {st : Status} (h : nodeStatus s frm st = .ok s')
+    (hk : KeysOK s) (hF : F.node frm) : ChangesWithin F s s' := by
+  unfold nodeStatus at h
+  simp only [bind_eq_ok, pure_eq_ok, orReject_eq_ok] at h
+  obtain ⟨n, hn, s5, h5, rfl⟩ := h
+  have ha : F.node n.addr := by rw [hk.getNode hn]; exact hF
+  refine (ChangesWithin.trans ?_ (cw_setNode h5 ha)).trans (cw_of_recs rfl)
+  split <;> split <;> split <;> split <;>
+    first
+      | exact cw_of_recs rfl
+      | exact { cw_refl s with nodeA := get_erase_other _ _ F.node hF }
+      | exact { cw_refl s with nodeI := get_erase_other _ _ F.node hF }
+      | exact { cw_refl s with nodeA := get_erase_other _ _ F.node hF, nodeI := get_erase_other _ _ F.node hF }
+
+theorem cw_insertSub (s : State) (sub : Sub) (hF : F.sub sub.id) : ChangesWithin F s (insertSub s sub) := by
+  unfold insertSub
+  cases sub.kind <;> exact { cw_refl s with sub := get_set_other _ _ _ F.sub hF }
+
+theorem cw_setAllocation (s : State) (a : Alloc) (hF : F.alloc (a.id, a.addr)) : ChangesWithin F s (setAllocation s a) :=
+  { cw_refl s with alloc := get_set_other _ _ _ F.alloc hF }
+
+theorem cw_insertPayout (s : State) (p : Payout) (hF : F.payout p.id) : ChangesWithin F s (insertPayout s p) :=
+  { cw_refl s with payout := get_set_other _ _ _ F.payout hF }
+
+theorem cw_emit (s : State) (e : Event) : ChangesWithin F s (emit s e) := cw_of_recs rfl
+
+/-- The id the next subscription / plan / session gets. -/
+def newSubId (s : State) : Nat := s.subCount.getD 0 + 1
+def newPlanId (s : State) : Nat := s.planCount.getD 0 + 1
+def newSessId (s : State) : Nat := s.sessCount.getD 0 + 1
+
+theorem cw_nodeSubscribe {s s' : State} {frm node : Addr} {gb hr : Int} {denom : Denom}
+    (h : nodeSubscribe s frm node gb hr denom = .ok s')
+    (hS : F.sub (newSubId s)) (hA : F.alloc (newSubId s, frm)) (hP : F.payout (newSubId s)) : ChangesWithin F s s' := by
+  unfold nodeSubscribe createSubscriptionForNode at h
+  simp only [bind_eq_ok, pure_eq_ok, require_eq_ok, orReject_eq_ok] at h
+  obtain ⟨_, _, _, _, r, ⟨n, _, _, _, hr'⟩, rfl⟩ := h
+  refine ChangesWithin.trans ?_ (cw_emit _ _)
+  split at hr'
+  · unfold createNodeSubGB at hr'
+    simp only [bind_eq_ok, pure_eq_ok, orReject_eq_ok] at hr'
+    obtain ⟨price, _, bytes, _, amt, _, dep, _, s1, h1, granted, _, rfl⟩ := hr'
+    refine ((cw_of_recs (recs_addDeposit h1)).trans (cw_insertSub _ _ hS)).trans
+      ((cw_setAllocation _ _ hA).trans (cw_emit _ _))
+  · unfold createNodeSubHr at hr'
+    simp only [bind_eq_ok, pure_eq_ok, orReject_eq_ok] at hr'
+    obtain ⟨price, _, amt, _, dep, _, s1, h1, pa, _, hourly, _, rfl⟩ := hr'
+    exact ((cw_of_recs (recs_addDeposit h1)).trans (cw_insertSub _ _ hS)).trans (cw_insertPayout _ _ hP)
+
+theorem cw_planCreate {s s' : State} {frm : Addr} {dur : Dur} {gb : Int} {prices : Coins}
+    (h : planCreate s frm dur gb prices = .ok s') (hF : F.plan (newPlanId s)) : ChangesWithin F s s' := by
+  unfold planCreate at h
+  simp only [bind_eq_ok, pure_eq_ok, require_eq_ok] at h
+  obtain ⟨_, _, s1, h1, rfl⟩ := h
+  have c1 : ChangesWithin F s { s with planCount := some (s.planCount.getD 0 + 1) } := cw_of_recs rfl
+  exact (c1.trans (cw_setPlan h1 hF)).trans (cw_of_recs rfl)
+
+theorem cw_planStatus {s s' : State} {frm : Addr} {id : Nat} {st : Status} (h : planStatus s frm id st = .ok s')
+    (hk : KeysOK s) (hF : F.plan id) : ChangesWithin F s s' := by
+  unfold planStatus at h
+  simp only [bind_eq_ok, pure_eq_ok, require_eq_ok, orReject_eq_ok] at h
+  obtain ⟨p, hp, _, _, s3, h3, rfl⟩ := h
+  have ha : F.plan p.id := by rw [hk.getPlan hp]; exact hF
+  refine (ChangesWithin.trans ?_ (cw_setPlan (p := { p with status := st, statusAt := s.time }) h3 ha)).trans (cw_of_recs rfl)
+  split <;> split <;>
+    first
+      | exact cw_of_recs rfl
+      | exact { cw_refl s with planA := get_erase_other _ _ F.plan hF }
+      | exact { cw_refl s with planI := get_erase_other _ _ F.plan hF }
+      | exact { cw_refl s with planA := get_erase_other _ _ F.plan hF, planI := get_erase_other _ _ F.plan hF }
+
+theorem cw_planLink {s s' : State} {frm : Addr} {id : Nat} {node : Addr} (h : planLink s frm id node = .ok s')
+    (hF : F.link (id, node)) : ChangesWithin F s s' := by
+  unfold planLink at h
+  simp only [bind_eq_ok, pure_eq_ok, require_eq_ok, orReject_eq_ok] at h
+  obtain ⟨p, _, _, _, _, _, rfl⟩ := h
+  exact { cw_refl s with link := get_set_other _ _ _ F.link hF }
+
+theorem cw_planUnlink {s s' : State} {frm : Addr} {id : Nat} {node : Addr} (h : planUnlink s frm id node = .ok s')
+    (hF : F.link (id, node)) : ChangesWithin F s s' := by
+  unfold planUnlink at h
+  simp only [bind_eq_ok, pure_eq_ok, require_eq_ok, orReject_eq_ok] at h
+  obtain ⟨p, _, _, _, rfl⟩ := h
+  exact { cw_refl s with link := get_erase_other _ _ F.link hF }
+
+theorem subCount_of_recsFrame {s s' : State} (h : MoneyFrame s s') : s'.subCount = s.subCount := by
+  unfold MoneyFrame at h; rw [h]
+
+theorem cw_planSubscribe {s s' : State} {frm : Addr} {id : Nat} {denom : Denom}
+    (h : planSubscribe s frm id denom = .ok s')
+    (hS : F.sub (newSubId s)) (hA : F.alloc (newSubId s, frm)) : ChangesWithin F s s' := by
+  unfold planSubscribe createSubscriptionForPlan at h
+  simp only [bind_eq_ok, pure_eq_ok, require_eq_ok, requireP_eq_ok, orReject_eq_ok] at h
+  obtain ⟨r, ⟨plan, hplan, _, _, price, _, reward, _, s1, h1, payAmt, _, _, _, s2, h2, granted, _, rfl⟩, rfl⟩ := h
+  refine ChangesWithin.trans ?_ (cw_emit _ _)
+  refine ((cw_of_recs (recs_sendCoinFromAccountToModule h1)).trans (cw_of_recs (recs_sendCoin h2))).trans ?_
+  exact ((cw_emit _ _).trans (cw_insertSub _ _ hS)).trans ((cw_setAllocation _ _ hA).trans (cw_emit _ _))
+
+theorem cw_sessionToPending (s : State) (x : Session) (hF : F.sess x.id) : ChangesWithin F s (sessionToPending s x) :=
+  { cw_refl s with sess := get_set_other _ _ _ F.sess hF }
+
+/-- Session records are stored under their own id (the part of `KeysOK` the pending hook needs). -/
+def SessKeys (s : State) : Prop := ∀ i x, s.sessions.get i = some x → x.id = i
+
+theorem sessKeys_sessionToPending {s : State} {x : Session} (h : SessKeys s) : SessKeys (sessionToPending s x) := by
+  intro i y hy
+  have : (s.sessions.set x.id { x with inactiveAt := s.time + s.params.sessDelay, status := .StatusInactivePending, statusAt := s.time }).get i = some y := hy
+  rw [Tbl.get_set] at this
+  split at this
+  · rename_i e; cases this; exact e
+  · exact h i y this
+
+theorem mem_sessionIdsForSub {s : State} {subId sid : Nat} :
+    sid ∈ sessionIdsForSub s subId ↔ (subId, sid) ∈ s.sessForSub.keys := by
+  unfold sessionIdsForSub
+  rw [List.mem_reverse, (List.mergeSort_perm _ _).mem_iff]
+  simp only [List.mem_map, List.mem_filter, decide_eq_true_eq]
+  constructor
+  · rintro ⟨⟨a, b⟩, ⟨hk, h1⟩, rfl⟩
+    simp only at h1
+    subst h1; exact hk
+  · intro h
+    exact ⟨(subId, sid), ⟨h, rfl⟩, rfl⟩
+
+theorem hookFold_frame (l : List Nat) (hl : ∀ sid ∈ l, F.sess sid) :
+    ∀ (s s' : State), l.foldlM (fun (s : State) (sid : Nat) => do
+        let x ← orPanic (s.sessions.get sid) "session for subscription key does not exist"
+        pure (if x.status = Status.StatusActive then sessionToPending s x else s)) s = .ok s' →
+      SessKeys s → SessKeys s' ∧ ChangesWithin F s s' := by
+  induction l with
+  | nil =>
+    intro s s' h hk
+    simp only [List.foldlM, pure_eq_ok] at h
+    subst h; exact ⟨hk, cw_refl s⟩
+  | cons a rest ih =>
+    intro s s' h hk
+    simp only [List.foldlM, bind_eq_ok, pure_eq_ok, orPanic_eq_ok] at h
+    obtain ⟨s1, ⟨x, hx, rfl⟩, h2⟩ := h
+    have hxid : x.id = a := hk a x hx
+    have hFa : F.sess x.id := by rw [hxid]; exact hl a (by simp)
+    have step : SessKeys (if x.status = .StatusActive then sessionToPending s x else s) ∧
+        ChangesWithin F s (if x.status = .StatusActive then sessionToPending s x else s) := by
+      split
+      · exact ⟨sessKeys_sessionToPending hk, cw_sessionToPending s x hFa⟩
+      · exact ⟨hk, cw_refl s⟩
+    obtain ⟨k2, c2⟩ := ih (fun sid hs => hl sid (by simp [hs])) _ s' h2 step.1
+    exact ⟨k2, step.2.trans c2⟩
+
+theorem cw_subCancel {s s' : State} {frm : Addr} {id : Nat} (h : subCancel s frm id = .ok s') (hk : KeysOK s)
+    (hS : F.sub id) (hP : F.payout id) (hX : ∀ sid, (id, sid) ∈ s.sessForSub.keys → F.sess sid) : ChangesWithin F s s' := by
+  unfold subCancel at h
+  simp only [bind_eq_ok, require_eq_ok, orReject_eq_ok] at h
+  obtain ⟨sub, hsub, _, _, _, _, s1, h1, h2⟩ := h
+  have hid : sub.id = id := hk.subs id sub hsub
+  rw [hid] at h1
+  unfold subscriptionInactivePendingHook at h1
+  have hfold := hookFold_frame (F := F) (sessionIdsForSub { s with subQ := s.subQ.erase (sub.inactiveAt, id) } id)
+    (fun sid hs => hX sid (mem_sessionIdsForSub.mp hs)) _ s1 h1 hk.sess
+  have c0 : ChangesWithin F s { s with subQ := s.subQ.erase (sub.inactiveAt, id) } := cw_of_recs rfl
+  have c1 : ChangesWithin F s s1 := c0.trans hfold.2
+  have c2 : ChangesWithin F s1 (subToPending s1 sub s.params.subDelay).1 := by
+    unfold subToPending
+    exact { cw_refl s1 with sub := get_set_other _ _ _ F.sub (by rw [hid]; exact hS) }
+  refine (c1.trans c2).trans ?_
+  unfold detachPayout at h2
+  split at h2
+  · simp only [Bool.false_eq_true, if_false, bind_eq_ok, pure_eq_ok, orReject_eq_ok] at h2
+    obtain ⟨p, hp, rfl⟩ := h2
+    have hp' : s1.payouts.get sub.id = some p := hp
+    have hp0 : s.payouts.get sub.id = some p := by
+      -- the hook touches no payout at all: use a footprint with sessions only
+      have hfold0 := hookFold_frame
+        (F := ⟨fun _ => False, fun _ => False, fun _ => False, fun _ => False, fun _ => False, fun _ => False,
+               fun _ => False, fun _ => True⟩)
+        (sessionIdsForSub { s with subQ := s.subQ.erase (sub.inactiveAt, id) } id) (fun _ _ => trivial) _ s1 h1 hk.sess
+      have := hfold0.2.payout sub.id (fun h => h)
+      rw [← hp']; exact this.symm
+    have hpid : p.id = id := by rw [← hid]; exact hk.payouts sub.id p hp0
+    unfold detachPayoutRec
+    exact { cw_refl _ with payout := get_set_other _ _ _ F.payout (by rw [hpid]; exact hP) }
+  · rw [pure_eq_ok] at h2; subst h2; exact cw_refl _
+
+theorem cw_subAllocate {s s' : State} {frm toA : Addr} {id : Nat} {bytes : Int}
+    (h : subAllocate s frm id toA bytes = .ok s') (hk : KeysOK s)
+    (hA : F.alloc (id, frm)) (hB : F.alloc (id, toA)) : ChangesWithin F s s' := by
+  unfold subAllocate at h
+  simp only [bind_eq_ok, pure_eq_ok, require_eq_ok, orReject_eq_ok] at h
+  obtain ⟨sub, _, _, _, _, _, fa, hfa, _, _, g, _, u, _, av, _, _, _, fg, _, _, _, _, _, rfl⟩ := h
+  have hfk := hk.allocs (id, frm) fa hfa
+  have hFa : F.alloc (fa.id, fa.addr) := by rw [hfk.1, hfk.2]; exact hA
+  have hFb : F.alloc (((s.allocs.get (id, toA)).getD { id := id, addr := toA, granted := 0, used := 0 }).id,
+      ((s.allocs.get (id, toA)).getD { id := id, addr := toA, granted := 0, used := 0 }).addr) := by
+    cases hg : s.allocs.get (id, toA) with
+    | none => exact hB
+    | some b =>
+      have := hk.allocs (id, toA) b hg
+      simp only [Option.getD_some]
+      rw [this.1, this.2]; exact hB
+  have c1 : ChangesWithin F s (if (s.allocs.get (id, toA)).isNone = true then { s with subForAcc := s.subForAcc.set (toA, id) () } else s) := by
+    split <;> exact cw_of_recs rfl
+  exact (c1.trans ((cw_setAllocation _ { fa with granted := fg } hFa).trans (cw_emit _ _))).trans
+    ((cw_setAllocation _ { ((s.allocs.get (id, toA)).getD { id := id, addr := toA, granted := 0, used := 0 }) with granted := bytes } hFb).trans (cw_emit _ _))
+
+theorem cw_insertSession (s : State) (x : Session) (hF : F.sess x.id) : ChangesWithin F s (insertSession s x) :=
+  { cw_refl s with sess := get_set_other _ _ _ F.sess hF }
+
+theorem cw_sessStart {s s' : State} {frm : TextAddr} {id : Nat} {node : Addr}
+    (h : sessStart s frm id node = .ok s') (hF : F.sess (newSessId s)) : ChangesWithin F s s' := by
+  unfold sessStart at h
+  simp only [bind_eq_ok, pure_eq_ok, require_eq_ok, orReject_eq_ok] at h
+  obtain ⟨sub, _, _, _, n, _, _, _, _, _, _, _, latest, _, _, _, rfl⟩ := h
+  exact (cw_insertSession _ _ hF).trans (cw_emit _ _)
+
+theorem cw_sessUpdate {s s' : State} {frm : Addr} {id : Nat} {up down dur : Int} {sig : SigSpec}
+    (h : sessUpdate s frm id up down dur sig = .ok s') (hk : KeysOK s) (hF : F.sess id) : ChangesWithin F s s' := by
+  unfold sessUpdate at h
+  simp only [bind_eq_ok, pure_eq_ok, require_eq_ok, orReject_eq_ok] at h
+  obtain ⟨x, hx, _, _, _, _, _, _, rfl⟩ := h
+  have hid : x.id = id := hk.sess id x hx
+  refine ChangesWithin.trans ?_ (cw_emit _ _)
+  split
+  · exact { cw_refl s with sess := get_set_other _ _ _ F.sess (by rw [hid]; exact hF) }
+  · exact { cw_refl s with sess := get_set_other _ _ _ F.sess (by rw [hid]; exact hF) }
+
+theorem cw_sessEnd {s s' : State} {frm : Addr} {id : Nat} (h : sessEnd s frm id = .ok s') (hk : KeysOK s)
+    (hF : F.sess id) : ChangesWithin F s s' := by
+  unfold sessEnd at h
+  simp only [bind_eq_ok, pure_eq_ok, require_eq_ok, orReject_eq_ok] at h
+  obtain ⟨x, hx, _, _, _, _, rfl⟩ := h
+  exact cw_sessionToPending s x (by rw [hk.sess id x hx]; exact hF)
+
+theorem cw_swap {s s' : State} {frm recv : Addr} {hash : Bytes} {amt : Int}
+    (h : swap s frm hash recv amt = .ok s') : ChangesWithin F s s' := by
+  unfold swap at h
+  simp only [bind_eq_ok, pure_eq_ok, require_eq_ok] at h
+  obtain ⟨_, _, _, _, _, _, q, _, coin, _, s1, h1, s2, h2, rfl⟩ := h
+  refine cw_of_recs ?_
+  have e1 := recs_mintCoins h1
+  have e2 := recs_sendModuleToAccount h2
+  rw [← e1, ← e2]; rfl
+
 end Hub.Model
